@@ -234,7 +234,10 @@ def mcBody : String → List Op
      .call "read_vcpu_struct_field" [.dyn, .dyn, .dyn, .dyn] [],
      .call "send_signal" [.dyn, Ex.ref "app_id"] []]
   | "send_signal" => [.scp (Ex.lit (.int 255)) (Ex.lit (.int 255)) (Ex.lit (.int 0)) (some (Ex.ref "app_id"))]
-  | "count_cores_in_state" => [.scp (Ex.lit (.int 255)) (Ex.lit (.int 255)) (Ex.lit (.int 0)) (some (Ex.ref "app_id"))]
+  | "count_cores_in_state" =>
+    -- a single state: one count command; an iterable of states: `self.count_cores_in_state(s, app_id)` per state
+    [.scp (Ex.lit (.int 255)) (Ex.lit (.int 255)) (Ex.lit (.int 0)) (some (Ex.ref "app_id")),
+     .call "count_cores_in_state" [.dyn, Ex.ref "app_id"] []]
   | "wait_for_cores_to_reach_state" => [.call "count_cores_in_state" [Ex.ref "state", Ex.ref "app_id"] []]
   | "load_routing_tables" =>
     [.call "load_routing_table_entries" [.dyn] [("x", .dyn), ("y", .dyn), ("app_id", Ex.ref "app_id")]]
@@ -870,6 +873,9 @@ def handle (op : String) (j : Json) : R Json := do
   | "sigs" =>
     pure (jList (Rig.Gen.Signatures.sigs.map fun s => Json.mkObj [("cls", .str s.cls), ("name", .str s.name),
       ("wf", .bool s.wf), ("body", jNat (bodyOf s.cls s.name).length),
+      ("calls", jList ((bodyOf s.cls s.name).filterMap fun op => match op with
+        | .call m _ _ => some (Json.str m)
+        | _ => none)),
       ("rule_ok", .bool ((rulesOf Rig.Gen.Signatures.sigs s).all (ruleOk s))),
       ("n_rules", jNat (rulesOf Rig.Gen.Signatures.sigs s).length),
       ("chip_known", .bool ((rulesOf Rig.Gen.Signatures.sigs s).all
